@@ -8,6 +8,7 @@ pub mod plans;
 pub mod rng;
 pub mod runner;
 pub mod savesim;
+pub mod simclock;
 pub mod twin;
 pub mod util;
 pub mod wcase;
@@ -66,6 +67,13 @@ fn main() {
             let (t, _, _) = twin::transcript(&args[1], args[2].parse().unwrap_or(0));
             println!("{}", t);
             0
+        }
+        Some("clocktest") => {
+            if simclock::selftest() {
+                0
+            } else {
+                2
+            }
         }
         Some("selftest") => plans::selftest(args.get(1).and_then(|s| s.parse().ok()).unwrap_or(2000)),
         _ => usage(),
